@@ -134,7 +134,7 @@ def dyadic_region(rng, kind=None):
 
 class Check(PropertyCheck):
     id = 'C15'
-    lean_targets = ['RegionsVerif.Props.C15', 'RegionsVerif.Props.C15Box', 'RegionsVerif.Props.C15Mask', 'RegionsVerif.Bridge.FormulasC15']
+    lean_targets = ['RegionsVerif.Props.C15', 'RegionsVerif.Props.C15Box', 'RegionsVerif.Props.C15Mask', 'RegionsVerif.Props.C15Area', 'RegionsVerif.Bridge.FormulasC15']
     namespaces = ['RegionsVerif.Props.C15', 'RegionsVerif.Bridge.C15']
     rule = ('rotation: all pixel region classes incl. regular polygons, annuli, lines/points/text and compounds to depth 2 x '
             'rotation centres (near, far) x angles of any magnitude/sign/unit x query points scaled to the shape; '
